@@ -660,11 +660,9 @@ def translate(repo, lean_gen_dir):
     def flags_of_factory(fam, ns):
         def flags_of(cb, diag):
             if ns == "Formulas":
-                sq, dg = fast_flags["rbf" if fam.startswith("rbf") else "matern"]
-                want = "sqd" if sq else "distf"
-                if cb != want:
-                    raise TranslateError(f"{fam}: g5_formulas names the callback {cb} but the source passes square_dist={sq}")
-                return sq, dg
+                # the flags the SOURCE passes (`lambda x1, x2: self.covar_dist(x1, x2, square_dist=…, diag=…)`), whatever
+                # g5_formulas calls the callback: a changed flag changes the definition and `genMat_pairwise` stops proving
+                return fast_flags["rbf" if fam.startswith("rbf") else "matern"]
             return cb == "sqd", diag
         return flags_of
     mat_calls, vec_calls = [], []
